@@ -45,7 +45,8 @@ Definition mask_interp_ok (c : cls) : bool :=
 
 (* ---- C13: parameters are drawn in get_params* only (so that the record determines the result) ---- *)
 Definition draws_inside_ok (c : cls) : bool := is_nil (c_draws_outside c).
-Definition c13_known : list string := ["PadIfNeeded"].
+(* open known findings: NPSNoise draws its noise field inside apply; PadIfNeeded(position="random") draws in update_params *)
+Definition c13_known : list string := ["NPSNoise"; "PadIfNeeded"].
 
 (* ---- C11: no in-place write to a caller-owned value ---- *)
 Definition no_mutation : bool := is_nil mutation_table.
